@@ -25,6 +25,7 @@ import (
 	"github.com/gauss-project/aurorafs/pkg/shed"
 	"github.com/gauss-project/aurorafs/pkg/shed/driver"
 	"github.com/gauss-project/aurorafs/pkg/storage"
+	"github.com/gauss-project/aurorafs/pkg/verifhook"
 )
 
 var (
@@ -52,6 +53,11 @@ func (db *DB) collectGarbageWorker() {
 	for {
 		select {
 		case <-db.collectGarbageTrigger:
+			if verifhook.Flag("localstore.gcworker.off") {
+				// the monitor decides when a triggered collection runs
+				verifhook.Point("localstore.gc.triggered")
+				continue
+			}
 			// run a single collect garbage run and
 			// if done is false, gcBatchSize is reached and
 			// another collect garbage run is needed
